@@ -297,11 +297,93 @@ fn entry_points(parser: &str, s: &str) -> Vec<(&'static str, Outcome)> {
     v
 }
 
+/// The channels an error gets out through (spec/Text.tla ErrorChannels).
+const ERROR_CHANNELS: [&str; 7] = ["display", "to_string", "display-padded", "dyn-error", "to_value", "capture_error", "debug"];
+
+fn error_channels<E: std::error::Error + 'static>(e: &E) -> Vec<(&'static str, String)> {
+    use emit::value::ToValue;
+    let d: &(dyn std::error::Error + 'static) = e;
+    let _ = d.source();
+    vec![
+        ("display", format!("{}", e)),
+        ("to_string", e.to_string()),
+        ("display-padded", format!("{:*^120}", e)),
+        ("dyn-error", d.to_string()),
+        ("to_value", d.to_value().to_string()),
+        ("capture_error", emit::Value::capture_error(e).to_string()),
+        ("debug", format!("{:?}", e)),
+    ]
+}
+
+/// Ok(None): the entry point returned a value; Ok(Some(renderings)): it returned an error; Err: a panic
+type ErrOutcome = Result<Option<Vec<(&'static str, String)>>, String>;
+
+fn errs<T, E: std::error::Error + 'static>(r: Result<T, E>) -> Option<Vec<(&'static str, String)>> {
+    r.err().map(|e| error_channels(&e))
+}
+
+/// every Result-returning entry point of a parser: the error it returns, through every channel
+fn error_points(parser: &str, s: &str) -> Vec<(&'static str, ErrOutcome)> {
+    let mut v: Vec<(&'static str, ErrOutcome)> = Vec::new();
+    match parser {
+        "ts" => {
+            v.push(("FromStr", catch(|| errs(s.parse::<Timestamp>()))));
+            v.push(("try_from_str", catch(|| errs(Timestamp::try_from_str(s)))));
+            v.push(("parse(Display chars)", catch(|| errs(Timestamp::parse(DispChars(s))))));
+        }
+        "tid" => {
+            v.push(("FromStr", catch(|| errs(s.parse::<TraceId>()))));
+            v.push(("try_from_hex(Display chars)", catch(|| errs(TraceId::try_from_hex(DispChars(s))))));
+            v.push(("try_from_hex_slice", catch(|| errs(TraceId::try_from_hex_slice(s.as_bytes())))));
+        }
+        "sid" => {
+            v.push(("FromStr", catch(|| errs(s.parse::<SpanId>()))));
+            v.push(("try_from_hex(Display chars)", catch(|| errs(SpanId::try_from_hex(DispChars(s))))));
+            v.push(("try_from_hex_slice", catch(|| errs(SpanId::try_from_hex_slice(s.as_bytes())))));
+        }
+        "fl" => {
+            v.push(("FromStr", catch(|| errs(s.parse::<TraceFlags>()))));
+            v.push(("try_from_hex_slice", catch(|| errs(TraceFlags::try_from_hex_slice(s.as_bytes())))));
+        }
+        "tp" => {
+            v.push(("FromStr", catch(|| errs(s.parse::<Traceparent>()))));
+            v.push(("try_from_str", catch(|| errs(Traceparent::try_from_str(s)))));
+        }
+        "lvl" => {
+            v.push(("FromStr", catch(|| errs(s.parse::<Level>()))));
+            v.push(("try_from_str", catch(|| errs(Level::try_from_str(s)))));
+        }
+        "kind" => {
+            v.push(("FromStr", catch(|| errs(s.parse::<Kind>()))));
+            v.push(("try_from_str", catch(|| errs(Kind::try_from_str(s)))));
+        }
+        "path" => {
+            v.push(("new_ref", catch(|| errs(Path::new_ref(s)))));
+            v.push(("new_str", catch(|| errs(Path::new_str(Str::new_ref(s))))));
+            v.push(("new_owned", catch(|| errs(Path::new_owned(s)))));
+            v.push(("new_cow_ref", catch(|| errs(Path::new_cow_ref(std::borrow::Cow::Borrowed(s))))));
+            if s.len() <= 12 {
+                // (leaks the text: short ones only)
+                v.push(("new(static)", catch(|| errs(Path::new(Box::leak(s.to_string().into_boxed_str()))))));
+            }
+        }
+        _ => tool_error("unknown parser"),
+    }
+    v
+}
+
+/// How a flags value comes about (spec/Text.tla FlagForms).
+const FLAG_FORMS: [&str; 5] = ["from_u8", "const", "not", "or", "and"];
+
 const PARSERS: [&str; 8] = ["ts", "tid", "sid", "fl", "tp", "lvl", "kind", "path"];
 
 struct St {
     /// (parser, form) pairs the specification declares don't-care (reported as a finding)
     dontcare: Vec<(String, String)>,
+    /// error channel -> "same" | "contains" | "nonempty" (spec: ErrorVia)
+    error_rule: std::collections::BTreeMap<String, String>,
+    error_messages: std::collections::BTreeSet<String>,
+    errors_rendered: u64,
     finding_obs: std::collections::BTreeMap<String, u64>,
     finding_examples: Vec<Value>,
     rep: Report,
@@ -346,7 +428,43 @@ impl St {
         }
     }
 
+    /// a rejection is an error value: every channel gives its (non-empty) message, none panics
+    fn check_errors(&mut self, parser: &str, s: &str, verdict: &str, case: &Value) {
+        if verdict == "a" {
+            return;
+        }
+        for (how, out) in error_points(parser, s) {
+            match out {
+                Err(p) => self.mm(format!("{parser}-error-panic"), case, json!({"text": s, "entry": how, "panic": p})),
+                Ok(None) => {} // a value (don't-care), or accepts-malformed reported by check_text
+                Ok(Some(chans)) => {
+                    self.errors_rendered += 1;
+                    let msg = chans.iter().find(|(c, _)| *c == "display").map(|(_, t)| t.clone()).unwrap_or_default();
+                    self.rep.checks += 1;
+                    if msg.is_empty() {
+                        self.mm(format!("{parser}-error-message-empty"), case, json!({"text": s, "entry": how}));
+                    } else if self.error_messages.len() < 64 {
+                        self.error_messages.insert(format!("{parser}: {msg}"));
+                    }
+                    for (ch, got) in chans {
+                        self.rep.checks += 1;
+                        let ok = match self.error_rule.get(ch).map(|r| r.as_str()) {
+                            Some("same") => got == msg,
+                            Some("contains") => got.contains(&msg) && !got.is_empty(),
+                            Some("nonempty") => !got.is_empty(),
+                            _ => tool_error("error channel without a rule (no FORMS line?)"),
+                        };
+                        if !ok {
+                            self.mm(format!("{parser}-error-channel-differs"), case, json!({"text": s, "entry": how, "channel": ch, "message": msg, "got": got}));
+                        }
+                    }
+                }
+            }
+        }
+    }
+
     fn check_text(&mut self, parser: &str, s: &str, verdict: &str, val: &Value, case: &Value) {
+        self.check_errors(parser, s, verdict, case);
         for (how, out) in entry_points(parser, s) {
             self.rep.checks += 1;
             *self.decided.entry(format!("{parser}:{verdict}")).or_insert(0) += 1;
@@ -388,7 +506,7 @@ fn main() {
     let args: Vec<String> = std::env::args().collect();
     let (cases, out, sweep) = (&args[1], &args[2], args.get(3).map(|s| s.as_str()).unwrap_or("quick"));
     quiet_panics();
-    let mut st = St { dontcare: Vec::new(), finding_obs: Default::default(), finding_examples: Vec::new(), rep: Report::new(), per_kind: Default::default(), decided: Default::default() };
+    let mut st = St { dontcare: Vec::new(), error_rule: Default::default(), error_messages: Default::default(), errors_rendered: 0, finding_obs: Default::default(), finding_examples: Vec::new(), rep: Report::new(), per_kind: Default::default(), decided: Default::default() };
     let mut distinct_accept = std::collections::BTreeSet::new();
     for_each_case(cases, |_, line| {
         let c = &line["c"];
@@ -440,6 +558,14 @@ fn main() {
                 if !same(&c["casts"], &CAST_FORMS) || !same(&c["channels"], &VALUE_CHANNELS) || !same(&c["typed"], &TYPED_CAST_FORMS) {
                     tool_error("the form / channel names of the specification and of the harness differ");
                 }
+                let er = c["errors"].as_object().unwrap_or_else(|| tool_error("FORMS: no error channels"));
+                if !same(&c["flagforms"], &FLAG_FORMS) {
+                    tool_error("the flag form names of the specification and of the harness differ");
+                }
+                if er.len() != ERROR_CHANNELS.len() || !ERROR_CHANNELS.iter().all(|k| er.contains_key(*k)) {
+                    tool_error("the error channel names of the specification and of the harness differ");
+                }
+                st.error_rule = er.iter().map(|(k, v)| (k.clone(), v.as_str().unwrap().to_string())).collect();
                 st.dontcare = c["dontcare"].as_array().unwrap().iter().map(|p| (p[0].as_str().unwrap().to_string(), p[1].as_str().unwrap().to_string())).collect();
             }
             "FMT" => {
@@ -498,6 +624,34 @@ fn main() {
             "FLAG" => {
                 let b = c["b"].as_u64().unwrap() as u8;
                 let want = text_of(&c["text"]);
+                // the value however it comes about (spec: FlagForms), out as text and back
+                let forms = c["forms"].as_object().unwrap_or_else(|| tool_error("FLAG: no forms"));
+                if forms.len() != FLAG_FORMS.len() {
+                    tool_error("the flag forms of the specification and of the harness differ");
+                }
+                for form in FLAG_FORMS {
+                    let ops: Vec<u8> = forms.get(form).and_then(|o| o.as_array()).unwrap_or_else(|| tool_error("FLAG: unknown form")).iter().map(|x| x.as_u64().unwrap() as u8).collect();
+                    let r = catch(|| {
+                        let f = |x: u8| TraceFlags::from_u8(x);
+                        let v = match form {
+                            "from_u8" => f(ops[0]),
+                            "const" => match ops[0] {
+                                0 => TraceFlags::EMPTY,
+                                1 => TraceFlags::SAMPLED,
+                                x => f(x),
+                            },
+                            "not" => !f(ops[0]),
+                            "or" => f(ops[0]) | f(ops[1]),
+                            "and" => f(ops[0]) & f(ops[1]),
+                            _ => tool_error("unknown flag form"),
+                        };
+                        (v.to_u8(), v.to_string(), want.parse::<TraceFlags>().ok() == Some(v), v == f(b), v.is_sampled())
+                    });
+                    st.rep.checks += 1;
+                    if r != Ok((b, want.clone(), true, true, b & 1 == 1)) {
+                        st.mm("flags-form-differs".into(), line, json!({"form": form, "operands": ops, "want": [json!(b), json!(want)], "got": format!("{r:?}")}));
+                    }
+                }
                 st.rep.checks += 2;
                 let r = catch(|| (TraceFlags::from_u8(b).to_string(), String::from_utf8(TraceFlags::from_u8(b).to_hex().to_vec()).unwrap()));
                 if r != Ok((want.clone(), want.clone())) {
@@ -699,6 +853,7 @@ fn main() {
                 cs.into_iter().collect()
             };
             for p in PARSERS {
+                st.check_errors(p, &s, "d", &none);
                 let outs = entry_points(p, &s);
                 evals += outs.len() as u64;
                 let first = outs[0].1.clone();
@@ -717,6 +872,8 @@ fn main() {
     st.rep.extra.insert("sweep_evaluations".into(), json!(evals));
     st.rep.extra.insert("distinct_accepted_values".into(), json!(distinct_accept.len()));
     st.rep.extra.insert("decided".into(), json!(st.decided));
+    st.rep.extra.insert("errors_rendered".into(), json!(st.errors_rendered));
+    st.rep.extra.insert("error_messages".into(), json!(st.error_messages));
     st.rep.extra.insert("findings_observed".into(), json!({"counts": st.finding_obs, "examples": st.finding_examples}));
     st.rep.extra.insert("mismatch_kinds".into(), json!(st.per_kind));
     st.rep.write(out);
